@@ -52,15 +52,30 @@ def main():
         vlib.templ_generate(os.path.join(d, "c05"))
         return vlib.go_build("./c05", "c05")
     build_j = background(build)
-    maxtok = 3 if thorough else 2
-    text = open(os.path.join(vlib.SPEC, "SinksCss_cases.cfg")).read().replace("MaxTok = 2", "MaxTok = %d" % maxtok)
-    cases_j = background(lambda: vlib.tlc("MCSinksCssCases", "cases.cfg", files={"cases.cfg": text}, workers=6, timeout=2400, xss="512m", xmx="8g"))
     mc_fixed_j = background(lambda: vlib.tlc("MCSinksCss", "SinksCss_mc_fixed.cfg", workers=8, timeout=1800, xmx="8g"))
+    binp = build_j()
+    # which variant of the model does the real code conform to? (pinned defects / proposed repairs)
+    probe = vlib.run([binp, "probe"]).stdout.decode().split()
+    fontfix, bgfix, single = [x == "true" for x in probe]
+    ck.set("model_variant", {"FontFix": fontfix, "BgFix": bgfix, "AttrEscapes": 1 if single else 2})
+    vlib.log("real code: font-family repaired=%s background-image repaired=%s single escape=%s" % (fontfix, bgfix, single))
+
+    def variant(text):
+        return (text.replace("FontFix = FALSE", "FontFix = %s" % ("TRUE" if fontfix else "FALSE"))
+                .replace("BgFix = FALSE", "BgFix = %s" % ("TRUE" if bgfix else "FALSE"))
+                .replace("AttrEscapes = 2", "AttrEscapes = %d" % (1 if single else 2)))
+    env = vlib.goenv()
+    env["C05_FONTFIX"] = "1" if fontfix else "0"
+    env["C05_BGFIX"] = "1" if bgfix else "0"
+    env["C05_SINGLE_ESCAPE"] = "1" if single else "0"
+    maxtok = 3 if thorough else 2
+    text = variant(open(os.path.join(vlib.SPEC, "SinksCss_cases.cfg")).read().replace("MaxTok = 2", "MaxTok = %d" % maxtok))
+    tracecfg = variant(open(os.path.join(vlib.SPEC, "SinksCss_trace.cfg")).read())
+    cases_j = background(lambda: vlib.tlc("MCSinksCssCases", "cases.cfg", files={"cases.cfg": text}, workers=6, timeout=2400, xss="512m", xmx="8g"))
     mc_safe_j = background(lambda: vlib.tlc("MCSinksCss", "SinksCss_mc_pinned_safe.cfg", workers=2, timeout=900))
     exp_j = {n: background(lambda n=n: vlib.tlc("MCSinksCss", n, workers=1, timeout=900)) for n in EXPECTED}
     neg_j = {n: background(lambda n=n: vlib.tlc("MCSinksCss", n, workers=1, timeout=900)) for n in NEG}
 
-    binp = build_j()
     cases = cases_j()
     if not cases.ok:
         raise vlib.InfraError("case generation: a prediction carries an unknown signature (%s)" % cases.violated)
@@ -77,7 +92,7 @@ def main():
     json.dump(toks[0], open(os.path.join(d, "tokens.json"), "w"))
 
     toklen, charlen, nrand, vallines = (4, 5, 40000, 30000) if thorough else (3, 4, 3000, 5000)
-    p = vlib.run([binp, "run", d, str(ck.seed), str(toklen), str(charlen), str(nrand), str(vallines)], check=False, timeout=3000)
+    p = vlib.run([binp, "run", d, str(ck.seed), str(toklen), str(charlen), str(nrand), str(vallines)], check=False, timeout=3000, env=env)
     vlib.log("harness done")
     s = vlib.harness_results(ck, p)
     if s["tlc_cases"] != len(clist):
@@ -93,7 +108,7 @@ def main():
     nlines = trace.count("\n")
     if nlines < min(vallines // 2, 500):
         raise vlib.InfraError("trace too short: %d lines" % nlines)
-    val = vlib.tlc("MCTraceSinksCss", "SinksCss_trace.cfg", files={"trace.ndjson": trace}, workers=1, timeout=3000, xss="512m")
+    val = vlib.tlc("MCTraceSinksCss", "trace.cfg", files={"trace.ndjson": trace, "trace.cfg": tracecfg}, workers=1, timeout=3000, xss="512m")
     vres = val.tagged("VAL")
     if not val.ok or len(vres) != 1 or vres[0]["n"] != nlines:
         raise vlib.InfraError("trace validation did not consume the trace")
@@ -109,14 +124,14 @@ def main():
     vlib.write_ndjson(os.path.join(d2, "cases.ndjson"), clist[:60])
     json.dump(syms[0], open(os.path.join(d2, "syms.json"), "w"))
     json.dump(toks[0], open(os.path.join(d2, "tokens.json"), "w"))
-    p2 = vlib.run([binp, "run", d2, str(ck.seed), "0", "0", "0", "600", "corrupt"], check=False, timeout=600)
+    p2 = vlib.run([binp, "run", d2, str(ck.seed), "0", "0", "0", "600", "corrupt"], check=False, timeout=600, env=env)
     s2 = None
     for line in p2.stdout.decode(errors="replace").splitlines():
         if line.startswith("{") and '"kind":"summary"' in line:
             s2 = json.loads(line)
     if p2.returncode != 0 or not s2 or s2["pred_mismatch"] < 1:
         raise vlib.InfraError("binding self-test: a corrupted prediction was not reported by the harness")
-    val2 = vlib.tlc("MCTraceSinksCss", "SinksCss_trace.cfg", files={"trace.ndjson": open(os.path.join(d2, "trace.ndjson")).read()},
+    val2 = vlib.tlc("MCTraceSinksCss", "trace.cfg", files={"trace.ndjson": open(os.path.join(d2, "trace.ndjson")).read(), "trace.cfg": tracecfg},
                     workers=1, timeout=600, xss="512m")
     v2 = val2.tagged("VAL")
     if len(v2) != 1 or not any(m["port"]["ev"] == "Corrupted" for m in v2[0]["mism"]):
